@@ -230,6 +230,13 @@ def one_run(rec, lib, rnd, d, dir_mode, st, inproc):
         with open(lp, "wb") as f:
             f.write(ltext.encode("latin-1"))
         rec.count("legacy_encoding_sheets")
+    stale = None
+    if rnd.random() < 0.3 and not link_real:
+        # an output of an earlier run is already there, longer than the new one will be: it is replaced as a whole
+        stale = sorted(files)[0][:-4] + "_cm.css"
+        with open(os.path.join(d, stale), "w", encoding="utf-8") as f:
+            f.write("/* output of an earlier run */\n" + "".join(f".old-rule-{j} {{ color: #123456; margin: {j}px }}\n" for j in range(400 + 40 * len(files[sorted(files)[0]].text) // 1000)))
+        rec.count("runs_over_a_stale_longer_output")
     before = clirun.snapshot(d)
     target_arg = (prefix or ".") if dir_mode else ("./" + os.path.join(prefix, single_name))
     if rnd.random() < 0.2:
@@ -268,6 +275,8 @@ def one_run(rec, lib, rnd, d, dir_mode, st, inproc):
     if legacy:
         expected_new.add(legacy[0][:-4] + "_cm.css")
     for rel, v in before.items():
+        if rel == stale:
+            continue
         if after.get(rel) != v:
             rec.violation(f"input path {rel!r} was modified or removed by the run ({v[0]} -> {after.get(rel, ('missing',))[0]})", case)
             return
@@ -320,6 +329,8 @@ def one_run(rec, lib, rnd, d, dir_mode, st, inproc):
         if os.path.exists(op):
             with open(op, encoding="utf-8", newline="") as f:
                 out_css = f.read()
+        if stale == rel[:-4] + "_cm.css" and after.get(stale) == before.get(stale):
+            out_css = None        # the earlier run's output was left as it was: nothing was written for this sheet
         mine = [c for c in cards if c["file"] == os.path.basename(rel)]
         judge_file(rec, sheet.text, out_css, mine, st, os.path.basename(rel), err, dict(case, file=rel))
         for sel, fs in sheet.features.items():
